@@ -1288,3 +1288,53 @@ def rule_witnessless_cache_hits(ctx):
             r.ok("%s|lists" % sadt, "%s caches a candidate list without a witness (%s answers); no query uses it without a witness" % (sadt.rsplit("::", 1)[-1], k0) if True else "", unproved[k0][0][0].loc())
     if n == 0:
         r.ok("cache", "no dynamic solver answers from its cache without a witness, and none caches a candidate list", None)
+
+
+def rule_cache_answer_polarity(ctx):
+    """C04 / C08: what a cache look-up answers from which list of a record"""
+    prog = ctx.prog
+    r = ctx.rule(
+        "cache-answer-polarity",
+        "in the cache look-ups of the buffered dynamic encoders an answer `Some(true)` is given for a label found in a record's list of "
+        "*accepted* arguments and `Some(false)` for one found in its list of *refused* arguments (whatever the kind of the record): a look-up "
+        "that answers YES from a refused list hands out, as a certificate, an extension that omits the argument",
+    )
+    looks = [b for b in prog.lib_bodies() if b.kind != "closure" and re.search(r"^dynamics::.*BufferedDynamicConstraintsEncoder::(<T>::)?is_(credulously|skeptically)_accepted$", strip_generics(b.path))]
+    if not r.require_anchor(looks, "cache look-ups of the buffered dynamic encoders"):
+        return
+    bodies = {}
+    for b in looks:
+        for x in prog.reachable_from([b], virtual_dispatch=False).values():
+            fx = prog.enclosing_fn(x)
+            if fx.path.startswith("dynamics::") or "<dynamics::" in fx.path.split(" as ")[0]:
+                for y in prog.with_closures(x):
+                    bodies[y.id] = y
+    n = 0
+    for y in sorted(bodies.values(), key=lambda z: z.id):
+        for st in y.sites():
+            nd = st.node
+            if st.si is None or nd["k"] != "assign" or nd["rv"]["k"] != "aggregate" or nd["rv"]["agg"].get("variant") != "Some" or nd["rv"]["agg"].get("path") != "core::option::Option":
+                continue
+            k = op_const(nd["rv"]["ops"][0]) if nd["rv"]["ops"] else None
+            if k is None or "bool" not in k:
+                continue
+            lists = set()
+            for c in conditions(y, st.bb):
+                if c.is_discr or not c.is_true():
+                    continue
+                for o in origins(y, c.place, transparent=()):
+                    if o.kind == "call" and re.search(r"slice::.*contains$|Vec.*::contains$|HashSet.*::contains$", callee_decl(o.data) or ""):
+                        for oo in origins(y, o.site.node["args"][0], transparent=("core::ops::deref::Deref::deref", "alloc::vec::Vec::as_slice")):
+                            for f in oo.fields or []:
+                                lists.add(str(f))
+            acc = any("accept" in f for f in lists)
+            ref = any("refus" in f or "reject" in f for f in lists)
+            if not lists:
+                continue
+            n += 1
+            anchor = "%s|Some(%s)@%s" % (y.id, k["bool"], ",".join(sorted(lists)))
+            if acc == ref:
+                r.ok(anchor, "NOT decided: the list governing this answer is not named as accepted / refused (%s)" % sorted(lists), st.loc())
+            else:
+                r.check(k["bool"] is acc, anchor, "answer-from-the-other-list", "Some(%s) is answered from the list of %s arguments" % (k["bool"], "accepted" if acc else "refused"), "the look-up answers Some(%s) for a label found in the list of %s arguments of a record: the answer (and the extension handed out with it as a certificate) contradicts what was proved" % (k["bool"], "accepted" if acc else "refused"), st.loc())
+    r.floor(n, 4, "answers of the cache look-ups governed by a list of a record")
